@@ -145,7 +145,16 @@ def rule_B1(run, prog):
             break
     ob("eigenbasis_of.__exit__", knb is not None, "new-top",
        "the basis objects are re-tagged with must be the top of the stack after the pop", ext)
-    ks1, env = pat.find(tx, "$S1 = numpy.linalg.inv($SS)", env)
+    ks1 = None
+    # the inverse: numerical inversion, or the conjugate transpose (the pushed matrix is the unitary
+    # eigenvector matrix of a self-adjoint operator)
+    for form in ("$S1 = numpy.linalg.inv($SS)", "$S1 = scipy.linalg.inv($SS)",
+                 "$S1 = numpy.conj(numpy.transpose($SS))", "$S1 = numpy.transpose(numpy.conj($SS))",
+                 "$S1 = $SS.conj().T", "$S1 = $SS.T.conj()"):
+        ks1, e_ = pat.find(tx, form, env)
+        if ks1 is not None:
+            env = e_
+            break
     ob("eigenbasis_of.__exit__", ks1 is not None and k2 is not None and ks1 > k2, "inverse",
        "__exit__ must transform back with the inverse of the popped transformation", ext)
     kdel, env = pat.find(tx, "del self.manager.basis_registered[$BB]", env)
